@@ -305,6 +305,18 @@ func substring(context Context, args ...Result) (Result, error) {
 	return String(str[int(begin)-1 : int(begin+end)-1]), nil
 }
 
+// roundHalfUp rounds to the closest integer, and to the one closest to positive
+// infinity if there are two.
+func roundHalfUp(n float64) float64 {
+	floor := math.Floor(n)
+
+	if n-floor >= 0.5 {
+		return floor + 1
+	}
+
+	return floor
+}
+
 func stringLength0(context Context, args ...Result) (Result, error) {
 	return Number(len(context.Result().String())), nil
 }
@@ -478,9 +490,9 @@ func getRound(n float64) float64 {
 	}
 
 	if n < -0.5 {
-		n = float64(int(n - 0.5))
-	} else if n > 0.5 {
-		n = float64(int(n + 0.5))
+		n = -roundHalfUp(-n)
+	} else if n >= 0.5 {
+		n = roundHalfUp(n)
 	} else {
 		n = 0
 	}
